@@ -400,7 +400,7 @@ PROPS = {
         },
         "analyze": analyze_generic,
         "oracles": ["deliveredOnce"],
-        "probes": ["bfsOrdered", "batchOrder", "servicesQuiet", "emissionsFedBackOnce", "fedBackCount"],
+        "probes": ["bfsOrdered", "batchOrder", "servicesQuiet", "emissionsFedBackOnce", "emissionsReportedUnderStoreFault", "fedBackCount"],
         "rule": CREW_RULE,
     },
     "C15": {
@@ -440,7 +440,7 @@ PROPS = {
                          ("siotimers", ["-n", "1500"]), ("siotimers", ["-n", "300"], {"runner": c17_race_probe})],
         },
         "analyze": analyze_generic,
-        "oracles": ["logAccepted", "firedOnce", "neverEarly", "neverBoth", "tableIsPending", "tableLive", "noMissedFire"],
+        "oracles": ["logAccepted", "firedOnce", "neverEarly", "neverBoth", "tableIsPending", "tableLive", "noMissedFire", "responsive"],
         "probes": [],
         "rule": TIMERS_RULE,
     },
@@ -453,7 +453,7 @@ PROPS = {
             "thorough": [("expect", ["-n", "6000"])],
         },
         "analyze": analyze_generic,
-        "oracles": ["verdictSound"],
+        "oracles": ["verdictSound", "noFalsePass"],
         "probes": [],
         "rule": ("sessions of 1-3 steps with 0-3 expected or inverted outputs each (patterns incl. variables, property variables and "
                  "array variables; ECMAScript guards that accept, reject by predicate or always reject) against scripted line streams "
